@@ -390,8 +390,17 @@ Definition dir_ok (d : dobs) : bool :=
 Definition dir_prompt (d : dobs) (bound : Z) : bool :=
   (d_wwait d <=? bound)%Z && (d_rwait d <=? bound)%Z.
 
-(* case: element 1 = scenario (mod 3): 0 normal, 1 peer vanishes, 2 unknown path secret.
-   output: stalled, idle_us, ref_time, slack_us, end_time, connect_err, then two directions. *)
+(* peer alive, secret known, both applications read to the end: the exchange must complete --
+   every intended byte written and read, EOF seen, no error on either half ("complete at end of
+   stream, under packet loss, duplication and reordering") *)
+Definition dir_complete (d : dobs) : bool :=
+  (d_eof d =? 1)%Z && (d_read d =? d_intended d)%Z && (d_written d =? d_intended d)%Z &&
+  (d_werr d =? 0)%Z && (d_rerr d =? 0)%Z && (d_wstarted d =? 1)%Z && (d_rstarted d =? 1)%Z.
+
+(* case: element 1 = scenario (mod 3): 0 normal, 1 peer vanishes, 2 unknown path secret;
+         element 19 = reader-stop bits (a reader that walks away half way; then only safety is demanded).
+   output: stalled, idle_us, ref_time, slack_us, end_time, connect_err, then two directions,
+           then ghost_streams, ghost_bytes. *)
 Definition dcsim_judge (case out : list Z) : bool :=
   let scenario := (nthz case 1 mod 3)%Z in
   let stalled := nthz out 0 in
@@ -400,12 +409,14 @@ Definition dcsim_judge (case out : list Z) : bool :=
   let slack := nthz out 3 in
   let d0 := dobs_at out 6 in
   let d1 := dobs_at out 24 in
-  (length out =? 42)%nat &&
+  (length out =? 44)%nat &&
+  (* a stream accepted from a duplicated first datagram never yields bytes *)
+  (nthz out 43 =? 0)%Z &&
   (stalled =? 0)%Z && (0 <? idle)%Z && (0 <=? slack)%Z &&
   (* the idle timeout the real parameters report is the one the source declares *)
   (idle =? Z.of_N (Gen_C20.test_idle_timeout_secs * 1000000))%Z &&
   dir_ok d0 && dir_ok d1 &&
-  (if (scenario =? 0)%Z then true
+  (if (scenario =? 0)%Z then (if (nthz case 19 =? 0)%Z then dir_complete d0 && dir_complete d1 else true)
    else (0 <=? reft)%Z && dir_prompt d0 (idle + slack) && dir_prompt d1 (idle + slack)) &&
   (* a stream whose peer does not know the secret must fail: the client's read half reports an error *)
   (if (scenario =? 2)%Z then (d_rstarted d1 =? 1)%Z && negb (d_rerr d1 =? 0)%Z && (d_eof d1 =? 0)%Z else true).
